@@ -105,6 +105,8 @@ def run_spec(tape, spec, extra_threads=None, executes=1, style=0):
       trig = ('step', tape.draw(cls + 1, 'trig_step'))
     gap2 = tape.pick([0, 0.01, 0.3, 1.0, 2.5], 'abort_gap')
   sim = core.Sim(tape, env.TRACE_PREFIXES, knobs)
+  sim.sigint_info = lambda: len(test_descriptor.Test.TEST_INSTANCES)
+  sim.watch_calls = frozenset(['_execute_test_teardown', '_finalize', 'tear_down_plugs', 'finalize', 'abort', 'wait'])
   obs.sim = sim
   ctx = bodies.Ctx(sim, spec.get('tag', ''))
   bodies.CURRENT[ctx.tag] = ctx
@@ -177,6 +179,11 @@ def run_spec(tape, spec, extra_threads=None, executes=1, style=0):
           obs.extra['exc_msg'] = str(e)[:200]
           sim.event('exec_exc', type(e).__name__)
         wout['execute_done'] = True
+        # the run is over: disarm pending aborts so that they cannot land in harness code
+        sim.triggers.clear()
+        sim.next_trigger = None
+        sim.sigint_pending = 0
+        sim.on_event = None
         # state of the Test object right after execute()
         obs.post = {
             'executor_none': test._executor is None,  # pylint: disable=protected-access
